@@ -366,6 +366,9 @@ func (lc *leaderController) BecomeLeader(ctx context.Context, req *proto.BecomeL
 	}
 
 	lc.quorumAckTracker = NewQuorumAckTracker(req.GetReplicationFactor(), lc.leaderElectionHeadEntryId.Offset, leaderCommitOffset)
+	if vhook.Enabled {
+		vhook.At("leader.become.tracker", lc.wal, lc.term, lc.leaderElectionHeadEntryId.Offset, leaderCommitOffset)
+	}
 	lc.sessionManager = NewSessionManager(lc.ctx, lc.namespace, lc.shardId, lc)
 
 	for follower, followerHeadEntryId := range req.FollowerMaps {
